@@ -1189,6 +1189,13 @@ class Models:
         if v.kind == "float" or attr.startswith("is_") or attr in ("norm_sort_key", "definition", "normalized_definition"):
             self.flag("missing-attribute", node, f"{v.kind} number has no attribute {attr}")
             self.I.raise_("AttributeError", node)
+        import decimal
+        import fractions
+        if not any(hasattr(t, attr) for t in (int, float, fractions.Fraction, decimal.Decimal)) and \
+                attr not in ("magnitude", "precision", "adjusted", "as_fraction", "as_integer_ratio", "as_tuple"):
+            # no number of any kind has it: the attribute protocol of the library's own classes asked of a number
+            self.flag("missing-attribute", node, f"{v.kind} number has no attribute {attr}")
+            self.I.raise_("AttributeError", node)
         self.I.unsupported(node, f"number attribute {attr}")
 
     def str_attr(self, v: StrV, attr, node):
